@@ -121,6 +121,9 @@ func (e *Engine) runVC(vc *VC, fn *ssa.Function, fc *FuncContract, splitVals []i
 			// uniform in the cell offset, so this loses no generality)
 			sv.C[1] = bvLit(64, 0)
 		case *types.Interface:
+			if hasMethod(p.Type(), "Seek") {
+				sv.File = true
+			}
 			if !fc.mayNil(nameAt(names, i)) {
 				// a non-nil interface parameter holds an object (not a typed nil pointer)
 				vc.assume(and(not(eq(sv.C[0], bvLit(tidBits, 0))), not(eq(sv.C[1], bvLit(refBits, 0)))))
@@ -178,6 +181,23 @@ func (e *Engine) runVC(vc *VC, fn *ssa.Function, fc *FuncContract, splitVals []i
 		env.learnConsts(r.E)
 	}
 	vc.cover("cover-entry", "preconditions of "+fc.Key+" are satisfiable", "true")
+	for _, h := range fc.Hints {
+		v := env.eval(h.E)
+		if vc.hints == nil {
+			vc.hints = map[string][]string{}
+		}
+		if v.Untyped != nil {
+			// a constant serves quantifiers of either width
+			vc.hints[h.Name] = append(vc.hints[h.Name], bvLitBig(64, v.Untyped), bvLitBig(32, v.Untyped))
+		} else {
+			vc.hints[h.Name] = append(vc.hints[h.Name], vc.defS(v.sort(), v.term(), "hint_"+h.Name))
+		}
+	}
+	if fc.Guard != nil {
+		ge := *env
+		ge.st, ge.old = st.clone(), st.clone()
+		vc.guardEnv = &ge
+	}
 
 	if traceOn {
 		fmt.Fprintln(os.Stderr, "runVC: building graph of", fn.String())
